@@ -14,7 +14,6 @@ use vcommon::*;
 fn bytes_of(v: &Value) -> Vec<u8> {
     v.as_array().map(|a| a.iter().map(|x| x.as_u64().unwrap() as u8).collect()).unwrap_or_default()
 }
-#[allow(dead_code)]
 fn lens_of(v: &Value) -> Vec<usize> {
     v.as_array().map(|a| a.iter().map(|x| x.as_u64().unwrap() as usize).collect()).unwrap_or_default()
 }
@@ -54,6 +53,25 @@ fn replay_one(e: &Entry, rec: &Value, modes_all: bool, cx: &mut Ctx) -> Value {
     obs["packed"] = json!(e.ops.packed(ver));
     if sink.data != want {
         cx.fail("c02.bytes", format!("real={:?} spec={:?}", sink.data, want));
+    } else {
+        // refinement of the writer machine: every real write call is a concatenation of whole primitive writes
+        // (a bulk write merges adjacent spec steps, it never splits or straddles one)
+        let spec_calls = lens_of(&rec["wcalls"]);
+        let mut bounds = std::collections::HashSet::new();
+        let mut acc = 0usize;
+        bounds.insert(0usize);
+        for l in &spec_calls {
+            acc += l;
+            bounds.insert(acc);
+        }
+        let mut pos = 0usize;
+        for l in sink.write_lens() {
+            pos += l;
+            if !bounds.contains(&pos) {
+                cx.fail("c04.calls", format!("real write ends at byte {} inside a primitive of the writer machine; real calls {:?} spec calls {:?}", pos, sink.write_lens(), spec_calls));
+                break;
+            }
+        }
     }
     {
         let mut src = TapR::new(&sink.data);
@@ -200,6 +218,54 @@ fn evo_one(reg: &HashMap<String, Entry>, rec: &Value, cx: &mut Ctx) {
     }
 }
 
+/// observed layout tree [sz, al, offs, kids] of a descriptor (spec/Packed.tla); sizes, alignments and offsets
+/// come from size_of / align_of / offset_of of the real types
+fn layout_tree(reg: &HashMap<String, Entry>, t: &Value) -> Value {
+    let k = t["k"].as_str().unwrap();
+    let leaf = |sz: usize, al: usize| json!({"sz": sz, "al": al, "offs": [], "kids": []});
+    let entry = reg.get(&canon(t));
+    let (sz, al) = entry.map(|e| (e.layout.size, e.layout.align)).unwrap_or((0, 1));
+    let ts: Vec<Value> = t["ts"].as_array().cloned().unwrap_or_default();
+    match k {
+        "p" => {
+            let w = prim_width(t["s"].as_str().unwrap());
+            leaf(w, if w == 0 { 1 } else { w })
+        }
+        "struct" | "tup" => {
+            let Some(e) = entry else { return leaf(0, 1) };
+            let kids: Vec<Value> = ts
+                .iter()
+                .enumerate()
+                .map(|(i, c)| {
+                    let removed = k == "struct" && t["fa"][i]["rm"] != "no";
+                    if removed {
+                        return leaf(0, 1);
+                    }
+                    let mut n = layout_tree(reg, c);
+                    // a field type that is not itself a registered composite: its size is what the parent recorded
+                    if reg.get(&canon(c)).is_none() && c["k"] != "p" {
+                        n = leaf(e.layout.fsizes[i], 1);
+                    }
+                    n
+                })
+                .collect();
+            json!({"sz": sz, "al": al, "offs": e.layout.offs, "kids": kids})
+        }
+        "arr" | "box" => json!({"sz": sz, "al": al, "offs": [], "kids": [layout_tree(reg, &ts[0])]}),
+        "enum" => {
+            let kids: Vec<Value> = ts
+                .iter()
+                .map(|var| {
+                    let fk: Vec<Value> = var["ts"].as_array().unwrap().iter().map(|c| layout_tree(reg, c)).collect();
+                    json!({"sz": 0, "al": 1, "offs": [], "kids": fk})
+                })
+                .collect();
+            json!({"sz": sz, "al": al, "offs": [], "kids": kids})
+        }
+        _ => leaf(sz, al.max(1)),
+    }
+}
+
 fn main() {
     let args: Vec<String> = std::env::args().collect();
     let cmd = args.get(1).map(|s| s.as_str()).unwrap_or("");
@@ -280,9 +346,26 @@ fn main() {
             }
         }
         "layouts" => {
-            let mut out = BufWriter::new(std::fs::File::create(&args[2]).expect("out file"));
-            for (k, e) in reg.iter() {
-                writeln!(out, "{}", json!({"key": k, "rust": e.rust, "layout": e.layout})).unwrap();
+            // impl -> spec observations for C04: {t, ver, packed (REAL repr_c_optimization_safe), lt (OBSERVED layout tree)}
+            // input lines: {t, vers:[..]}
+            let input = std::fs::File::open(&args[2]).expect("records file");
+            let mut out = BufWriter::new(std::fs::File::create(&args[3]).expect("out file"));
+            for line in std::io::BufReader::new(input).lines() {
+                let line = line.unwrap();
+                if line.trim().is_empty() {
+                    continue;
+                }
+                let rec: Value = serde_json::from_str(&line).expect("record json");
+                let key = canon(&rec["t"]);
+                let Some(e) = reg.get(&key) else {
+                    writeln!(out, "{}", json!({"tool_error": format!("missing type {}", key)})).unwrap();
+                    continue;
+                };
+                let lt = layout_tree(&reg, &rec["t"]);
+                for ver in rec["vers"].as_array().unwrap() {
+                    let ver = ver.as_u64().unwrap() as u32;
+                    writeln!(out, "{}", json!({"t": rec["t"], "ver": ver, "packed": e.ops.packed(ver), "lt": lt, "rust": e.rust})).unwrap();
+                }
             }
         }
         _ => {
